@@ -108,6 +108,14 @@ pub fn run_child(program: &Path, args: &[&str], cfg: Cfg, extra_env: &[(&str, &s
     c.env("LD_PRELOAD", shim_path());
     c.env("VERIF_HASH_SEED", cfg.hash_seed.to_string());
     c.env_remove("VERIF_HASH_TRACE");
+    // glibc malloc tuning for the children: every compilation runs on a fresh thread, and with
+    // per-thread arenas that are grown by mprotect and trimmed on exit a compile spends ~4x the
+    // CPU in page faults (measured: 32 compiles 6.7 s -> 1.4 s user).  One arena that is never
+    // trimmed avoids that.  This only changes where allocations land, not what is compared.
+    c.env("MALLOC_ARENA_MAX", "1");
+    c.env("MALLOC_TOP_PAD_", "268435456");
+    c.env("MALLOC_TRIM_THRESHOLD_", "2147483647");
+    c.env("MALLOC_MMAP_THRESHOLD_", "1073741824");
     for (k, v) in extra_env {
         c.env(k, v);
     }
@@ -614,7 +622,7 @@ pub fn hash_seed_for(root: u64, i: u64) -> u64 {
 pub fn do_check(args: &Args) -> i32 {
     let t0 = Instant::now();
     let thorough = args.tier == "thorough";
-    let n_prog = args.runs.unwrap_or(if thorough { 2_000 } else { 300 });
+    let n_prog = args.runs.unwrap_or(if thorough { 3_000 } else { 300 });
     let n_seeds = args.hash_seeds.unwrap_or(if thorough { 32 } else { 4 }).max(2);
     let reps: u64 = 1;
     println!(
